@@ -6,11 +6,14 @@ package main
 // appendix C), and key type labels that disagree with the type of the public key blob next to them.
 
 import (
+	"crypto/ed25519"
 	"encoding/base64"
 	"encoding/pem"
 	"fmt"
 	"os"
 	"strings"
+
+	"golang.org/x/crypto/ssh"
 )
 
 // sample runs f, takes the instances it registered out of the list that feeds the end-to-end and
@@ -283,6 +286,39 @@ func (g *c02) labelMismatch() {
 			g.ppk("label-curve-in-blob", ppkText(ppkMeta{version: 3, typ: "ecdsa-sha2-nistp256", encryption: "none", comment: "c"}, bad, r.Bytes(40), r.Bytes(32)), noSpec)
 		}
 	})
+}
+
+// ---------- OpenSSH certificates (id_*-cert.pub): the stored type label is the certificate's ----------
+
+func (g *c02) sshCerts() {
+	r := g.c.R
+	ca, err := ssh.NewSignerFromKey(ed25519.NewKeyFromSeed(r.Bytes(32)))
+	if err != nil {
+		return
+	}
+	for i, p := range g.sshPubs() {
+		pk, err := ssh.ParsePublicKey(p.blob)
+		if err != nil {
+			continue
+		}
+		for j, ct := range []uint32{ssh.UserCert, ssh.HostCert} {
+			cert := &ssh.Certificate{Key: pk, Serial: uint64(100*i + j), CertType: ct, KeyId: "key-" + p.typ,
+				ValidPrincipals: []string{"root", "host.example"}, ValidAfter: 0, ValidBefore: ssh.CertTimeInfinity}
+			if err := cert.SignCert(r, ca); err != nil {
+				continue
+			}
+			comment := []string{"", "user@host"}[j]
+			line := strings.TrimSuffix(string(ssh.MarshalAuthorizedKey(cert)), "\n")
+			meta := SL{SL{S("Type"), S(cert.Type())}}
+			if comment != "" {
+				line += " " + comment
+				meta = append(meta, SL{S("Comment"), S(comment)})
+			} else {
+				meta = append(meta, SL{S("Comment")})
+			}
+			g.sshline(fmt.Sprintf("cert-%s-%d", p.typ, j), []byte(line+"\n"), SL{I(7), meta})
+		}
+	}
 }
 
 // ---------- known_hosts: host pattern lists and markers ----------
